@@ -170,6 +170,11 @@ _PARS = (" src/parser.rs itself (the bridge from httparse to the http types: err
 CLAIMED["C05"]["text"] += _PARS % "c05_code_try_parse_response, c05_code_try_parse_partial_response"
 CLAIMED["C20"]["text"] += _PARS % "c20_code_try_parse_response, c20_code_try_parse_partial_response, c20_code_try_parse_request"
 CLAIMED["C20"]["technique"] += " + the code's own functions translated to Gallina on every run and proved equivalent to the model"
+CLAIMED["C10"]["text"] += (" The close-reason list itself is translated too: add_close_reason (each reason once, in order), CloseReason::explain, close_reason / must_close_connection of the Redirect and Cleanup states, "
+                           "proved equal to the model's add_reason / explain / close_reason / must_close (c10_code_add_close_reason, c10_code_explain, c10_code_close_reason, c10_code_must_close, c10_code_must_close_iff; proofs/Gen2_equiv_small_reasons.v).")
+CLAIMED["C09"]["text"] += (" The functions computing the flags are translated as well -- Inner::is_redirect (3xx except 304), BodyState::need_response_body, Call<RecvBody>::is_ended / is_close_delimited / is_on_chunk_boundary, "
+                           "Flow<RecvBody>::can_proceed -- and proved equal to the model's (c09_code_is_redirect, c09_code_need_response_body, c09_code_recv_body_can_proceed, c09_code_call_reader_questions; proofs/Gen2_equiv_small_flags.v).")
+CLAIMED["C06"]["text"] += (" Call::body_mode (the mode reported to the caller) is translated and proved equal to the model's call_body_mode (c06_code_call_body_mode, proofs/Gen2_equiv_small_mode.v).")
 for _p in ("C02", "C03", "C04", "C06", "C07", "C08", "C09", "C10", "C11", "C12", "C13", "C16", "C17"):
     CLAIMED[_p]["technique"] += " + the code's own functions translated to Gallina on every run and proved equivalent to the model"
 
